@@ -10,7 +10,10 @@ design half : TLC explores spec/MCHistory.tla (bounded model of the tracer's
 binding half: harness/histdrv runs generated workloads on REAL memories
               (in-process, bbolt; thorough: + badger, gorm/sqlite, crash points
               after every Sync), scans the stores directly and issues generated
-              queries; TLC (spec/TraceHistory.tla) evaluates
+              queries; "restart" workloads go on across process restarts on
+              the SAME store (stop after Sync, new machine + new memory, 2-4
+              processes, each short or long enough to rotate); TLC
+              (spec/TraceHistory.tla) evaluates
               (a) the property formulas on what the backend stored/returned
                   -> verdict (one violation per signature
                   {formula, backend, fn, cond})
@@ -40,13 +43,14 @@ PINNED = {f: True for f in FLAG_NAMES}
 FIXED = {f: False for f in FLAG_NAMES}
 
 INVS = ["Inv_OneRecordPerMatch", "Inv_Bounded", "Inv_KeepsNewest", "Inv_QueryExact",
-        "Inv_NewestFirst", "Inv_ImportRestores"]
+        "Inv_NewestFirst", "Inv_ImportRestores", "Inv_RotationTrims"]
 
 
-def mc_consts(flags, backend, steps, lists=False, queries=False, mm=2, mb=2, mc=1):
+def mc_consts(flags, backend, steps, lists=False, queries=False, mm=2, mb=2, mc=1, restarts=0,
+              gc_from_saved=False, ns=2):
     c = dict(flags)
-    c.update(Backend=backend, NS=2, MaxSteps=steps, UseLists=lists, CheckQueries=queries,
-             MaxMax=mm, MaxBatch=mb, MaxConds=mc)
+    c.update(Backend=backend, NS=ns, MaxSteps=steps, UseLists=lists, CheckQueries=queries,
+             MaxMax=mm, MaxBatch=mb, MaxConds=mc, MaxRestarts=restarts, GcFromSaved=gc_from_saved)
     return c
 
 
@@ -66,6 +70,8 @@ def mc_plan(tier):
              mc_consts(FIXED, "bbolt", 4)),
             ("bbolt: every query (<=1 state condition) after every history of 3",
              mc_consts(FIXED, "bbolt", 3, queries=True, mb=1)),
+            ("bbolt: <=2 process restarts on one store (Reopen), Max 1..2, batch 1..2, 5 steps",
+             mc_consts(FIXED, "bbolt", 5, restarts=2, ns=1)),
         ]
     else:
         holds += [
@@ -85,6 +91,12 @@ def mc_plan(tier):
              mc_consts(FIXED, "bbolt", 3, queries=True, mb=1, mc=2)),
             ("gorm: every query (<=1 state condition) after every history of 3",
              mc_consts(FIXED, "gorm", 3, queries=True, mb=1)),
+            ("bbolt: <=2 process restarts on one store (Reopen), Max 1..2, batch 1..2, 7 steps",
+             mc_consts(FIXED, "bbolt", 7, restarts=2, ns=1)),
+            ("bbolt: <=2 process restarts, two states, Max 1..2, batch 1..2, 5 steps",
+             mc_consts(FIXED, "bbolt", 5, restarts=2)),
+            ("gorm: <=2 process restarts on one store (Reopen), Max 1..2, batch 1..2, 6 steps",
+             mc_consts(FIXED, "gorm", 6, restarts=2, ns=1)),
         ]
     # predictions of the as-is model for the defects still in the tree: one
     # invariant each, TLC stops at the first counterexample
@@ -107,13 +119,18 @@ def mc_plan(tier):
     for flag, label, consts, inv, in_quick in cand:
         if ASIS[flag] and (in_quick or tier != "quick"):
             preds.append((label, consts, inv))
-    return holds, preds
+    # the formulas added for restarts have teeth in the model: a rotation that
+    # trims below the per-process Saved counter (NOT the code) must break them
+    tests = [("model self-test: rotation below the per-process Saved counter breaks RotationTrims",
+              mc_consts(FIXED, "bbolt", 5, restarts=2, ns=1, gc_from_saved=True), "Inv_RotationTrims")]
+    return holds, preds, tests
 
 
 def run_mc(tier, rep):
-    holds, preds = mc_plan(tier)
+    holds, preds, tests = mc_plan(tier)
     to = 900 if tier == "quick" else 3000
-    jobs = [(l, c, INVS, False) for l, c in holds] + [(l, c, [inv], True) for l, c, inv in preds]
+    jobs = [(l, c, INVS, False) for l, c in holds] + [(l, c, [inv], True) for l, c, inv in preds] + \
+           [(l, c, [inv], "selftest") for l, c, inv in tests]
     workers = 4 if tier == "quick" else 8
 
     def one(j):
@@ -127,12 +144,18 @@ def run_mc(tier, rep):
     runs = []
     predicted = []
     for (label, consts, invs, expect), r in results:
-        runs.append(dict(config=label, backend=consts["Backend"], expect_violation=expect,
+        runs.append(dict(config=label, backend=consts["Backend"], expect_violation=bool(expect),
                          states_generated=r["states"], distinct=r["distinct"],
                          wall_s=round(r["wall"], 1), violated=r["violated"],
                          timed_out=r["timed_out"]))
         if r["errors"] and not r["timed_out"] and not (expect and r["violated"]):
             raise Inconclusive("TLC error in '%s': %s\n%s" % (label, r["errors"][:3], r["out"][-2000:]))
+        if expect == "selftest":
+            if not r["violated"]:
+                raise Inconclusive("'%s': TLC found no counterexample:\n%s" % (label, r["out"][-1500:]))
+            rep.coverage.setdefault("mc_selftests", []).append(
+                dict(test=label, invariant=invs[0], counterexample_found=True))
+            continue
         if expect:
             # a prediction of the as-is model; the verdict comes from the binding half
             predicted.append(dict(defect=label, invariant=invs[0],
@@ -158,27 +181,30 @@ def run_mc(tier, rep):
 # binding half
 
 PLANS = {
-    # (cases, max mutations, backends, crash points)
-    "quick": [(200, 8, "memory,bbolt", False)],
-    "thorough": [(2500, 8, "memory,bbolt", False),
-                 (500, 8, "memory,bbolt,badger,gorm", True)],
+    # (cases, max mutations, backends, crash points, restart cases, max processes per store)
+    # restart cases: the workload goes on across process restarts on the same
+    # store (persistent backends only; the memory backend skips them)
+    "quick": [(200, 8, "memory,bbolt", False, 64, 3)],
+    "thorough": [(2500, 8, "memory,bbolt", False, 1200, 4),
+                 (500, 8, "memory,bbolt,badger,gorm", True, 240, 4)],
 }
 
 
 def generate(binary, plan, outdir, sd):
     files, ncases = [], 0
     cases = {}
-    for k, (n, maxm, backends, crash) in enumerate(plan):
+    for k, (n, maxm, backends, crash, nrestart, maxprocs) in enumerate(plan):
         pref = os.path.join(outdir, "h%d" % k)
         cmd = [binary, "history", "-n", str(n), "-maxmuts", str(maxm), "-backends", backends,
-               "-seed", str(sd * 1000 + k), "-out", pref, "-shards", "16", "-tmp", outdir]
+               "-seed", str(sd * 1000 + k), "-out", pref, "-shards", "16", "-tmp", outdir,
+               "-restarts", str(nrestart), "-maxprocs", str(maxprocs)]
         if crash:
             cmd.append("-crash")
         rc, out = run(cmd, timeout=3000)
         if rc != 0:
             raise Inconclusive("history driver failed: " + out[-2000:])
         st = json.loads(out.strip().splitlines()[-1])
-        ncases += st["cases"] * len(st["backends"])
+        ncases += st["blocks"]
         for f in sorted(glob.glob(pref + ".*.ndjson")):
             if os.path.getsize(f) > 0:
                 files.append(f)
@@ -305,12 +331,24 @@ def shape_stats(files, limit_samples=4):
         backend = None
         cfg = None
         nlog = 0
+        nproc, gc = 1, 0
         for l in open(fn):
             if l.startswith('{"ev":"case"'):
                 x = json.loads(l)
                 backend, cfg, nlog = x["backend"], x["cfg"], 0
+                nproc, gc = 1, 0
             elif l.startswith('{"ev":"log"'):
                 nlog = l.count('"id":')
+                x = json.loads(l)
+                if x["savedGc"] != gc:
+                    gc = x["savedGc"]
+                    keys.add(("rotation", backend, min(nproc, 4), cfg["max"], cfg["batch"]))
+            elif l.startswith('{"ev":"restart"'):
+                x = json.loads(l)
+                nproc += 1
+                keys.add(("restart", backend, x["kind"], min(nproc, 4), cfg["max"], cfg["batch"], gc > 0,
+                          min(len(x["reopened"]), 4)))
+                gc = 0
             elif l.startswith('{"ev":"tx"'):
                 x = json.loads(l)
                 lists = (bool(cfg["called"]), cfg["calledEx"], bool(cfg["changed"]), cfg["changedEx"])
@@ -343,10 +381,14 @@ def check(tier):
         distinct, samples = shape_stats(files)
         rep.coverage.update(
             traces_validated_against_impl=nblocks,
-            evaluations=tot["tx"] + tot["logs"] + tot["q"] + tot["imports"] + tot["crashes"],
+            evaluations=tot["tx"] + tot["logs"] + tot["q"] + tot["imports"] + tot["crashes"] +
+            tot["restarts"],
             distinct_nontrivial=distinct, trace_lines=tot["lines"],
             transitions_judged=tot["tx"], records_created=tot["rec"], store_scans=tot["logs"],
             queries_judged=tot["q"], overlapping_queries_judged=tot.get("overlaps", 0), imports_judged=tot["imports"], crash_points=tot["crashes"],
+            process_restarts_judged=tot["restarts"],
+            rotations_judged=dict(total=tot["rotations"], in_a_reopened_store=tot["rotationsReopened"]),
+            scans_over_pbound_only_because_of_restarts=tot["grownByRestarts"],
             match_classes=dict(must=tot["must"], must_not=tot["mustnot"], either_reading=tot["either"]),
             violations_by_signature={k: v for k, v in sorted(nviol.items())},
             skipped_ambiguous_human_time=ambig,
@@ -354,16 +396,23 @@ def check(tier):
                  "(rotation runs <= 12) add/remove/set/check mutations incl. rejected and "
                  "handler-canceled ones, Sync points, configuration: Called/Changed allow or block "
                  "lists, TrackRejected, tracked subset, MaxRecords 1..3, batch 1..3, optional "
-                 "pre-imported MachineTick), run on every backend of the tier; per block every "
+                 "pre-imported MachineTick), run on every backend of the tier; restart cases "
+                 "(persistent backends): the same configurations, 2-3 (thorough 2-4) processes on one "
+                 "store, each short (1-4 mutations) or long (past its rotation threshold 1.5*Max + "
+                 "2*batch), stopped after Sync, the next machine resuming from an Export or fresh, "
+                 "settled (writes and rotation done) after every mutation; per block every "
                  "transition, every store scan, every query (empty query with limits, every single "
                  "state condition, all 16 presence combinations of the 4 state conditions x a "
                  "rotating time-range kind, every time-range kind alone, the 4 *Between helpers per "
-                 "state), one Export/Import and (thorough) one crash point per Sync is one "
-                 "evaluation; distinct = distinct (backend, query shape) judged against a non-empty "
-                 "store + distinct (backend, list configuration shape, transition outcome)",
+                 "state), one Export/Import, every process restart and (thorough) one crash point per "
+                 "Sync is one evaluation; distinct = distinct (backend, query shape) judged against a non-empty "
+                 "store + distinct (backend, list configuration shape, transition outcome) + distinct "
+                 "(backend, restart kind, process number, Max, batch, had the stopped process rotated, "
+                 "records found) + distinct (backend, rotation in process number, Max, batch)",
             samples=samples or [dict(note="no combined-condition sample in this run")],
-            formulas=["OneRecordPerMatch", "Bounded (BoundedExact / BoundedLoose / KeepsNewest)",
-                      "QueryExact", "NewestFirst", "BackendsAgree", "ImportRestores", "Durable"],
+            formulas=["OneRecordPerMatch", "Bounded (BoundedExact / BoundedLoose(R) / KeepsNewest / "
+                      "RotationTrims)", "QueryExact", "NewestFirst", "BackendsAgree", "ImportRestores",
+                      "Durable (crash copy; restart: kept, same meaning by state name, NextId resumed)"],
             exhaustive=False)
         rep.assumptions += [
             "TLC explores the bounded model completely only within the stated constants",
@@ -374,6 +423,13 @@ def check(tier):
             "human-time conditions are expressed as mutation indexes (wall clock taken right before "
             "each mutation); blocks whose record times are not strictly increasing are not judged",
             "a crash point is a copy of the store's files taken when Sync's writes are done",
+            "a process restart = Sync, writes seen to finish, Memory.Dispose + Machine.Dispose, a new "
+            "machine with the same id (Import of the Export, or fresh) and NewMemory on the same store; "
+            "Dispose does not flush, a stop with queued records is not modelled",
+            "Bounded across restarts takes the per-process reading (the rotation threshold counts the "
+            "records written by the current memory object): until its first rotation a process may add "
+            "PBound records to what it found; how often only this reading held is counted in "
+            "scans_over_pbound_only_because_of_restarts",
             "where the property text admits several readings (combination of the four lists, "
             "Activated/Deactivated relative to the transition, the previous stored record or the "
             "previous created record) a violation is raised only when every reading is contradicted",
